@@ -501,7 +501,11 @@ impl Local {
                 debug_assert!(self.epoch.load(Ordering::Relaxed).is_pinned());
                 let guard = ManuallyDrop::new(Guard { local: self });
                 self.global().collect(&guard);
-                self.repin_without_collect();
+                // Only the guard that is being dropped may be re-pinned. If a deferred function
+                // has left a guard of its own alive, its critical section must not be ended.
+                if self.guard_count.get() == 1 {
+                    self.repin_without_collect();
+                }
             }
             self.collecting.set(false);
         }
@@ -529,15 +533,22 @@ impl Local {
         self.release_handle();
     }
 
+    /// Repins from inside the disposal of reference-counted objects, which runs under a guard of
+    /// its own: on top of the guard whose `unpin` is running the collection, or alone on a
+    /// temporary participant during thread teardown. Any further guard belongs to a deferred
+    /// function that has kept it alive; its critical section must not be ended.
+    #[inline]
+    pub(crate) fn repin_in_disposal(&self) {
+        let own = if self.collecting.get() { 2 } else { 1 };
+        if self.guard_count.get() == own {
+            self.repin_without_collect();
+        }
+    }
+
     /// Repins the local epoch without checking a scheduled collection.
     #[inline]
     pub(crate) fn repin_without_collect(&self) -> Epoch {
         let epoch = self.epoch.load(Ordering::Relaxed);
-        // Only the guard whose `unpin` is running the collection may be re-pinned. If a deferred
-        // function has left a guard of its own alive, its critical section must not be ended.
-        if self.guard_count.get() > 1 {
-            return epoch;
-        }
         let global_epoch = self.global().epoch.load(Ordering::Relaxed).pinned();
 
         // Update the local epoch only if the global epoch is greater than the local epoch.
